@@ -161,3 +161,27 @@ reg(Spec('C24', ['c24:C24'],
          thorough=[('DUPLEX', 30000), ('RACE', 20000), ('ADV', 50000), ('MISUSE', 10000)],
          overrides={'*': {'ops_boost': {'altsvc': 6}}},
          rule=R_RUN + 'non-trivial = an advertisement attempted by a client or on a half-closed/closed stream, or an ALTSVC frame delivered on a faulted direction' + R_DISTINCT))
+
+reg(Spec('C11', ['c11:C11'],
+         quick=[('RACE', 2500), ('DUPLEX', 1000), ('ADV', 1000), ('CORRUPT', 600)],
+         thorough=[('RACE', 60000), ('DUPLEX', 20000), ('ADV', 20000), ('CORRUPT', 20000)],
+         overrides={'*': {'ops_boost': {'settings': 5}, 'settings_churn': 0.15}},
+         rule=R_RUN + 'non-trivial = at least two SETTINGS frames of one endpoint were outstanding at once' + R_DISTINCT))
+reg(Spec('C12', ['c12:C12'],
+         quick=[('ADV', 2500), ('CORRUPT', 1500), ('MISUSE', 800), ('FLOW', 600)],
+         thorough=[('ADV', 60000), ('CORRUPT', 40000), ('MISUSE', 20000), ('FLOW', 20000), ('UPGRADE', 5000)],
+         overrides={'*': {'ops_boost': {'settings': 3}}},
+         rule=R_RUN + 'non-trivial = a boundary value (0, 1, 2, 2^14-1, 2^14, 2^24-1, 2^24, 2^31-1, 2^31, 2^32-1), an out-of-range value or an unknown identifier was used, locally or on the wire' + R_DISTINCT,
+         assumptions=['setting identifiers sent through update_settings stay below 256 (hyperframe 6.1 serialises id & 0xFF); received identifiers cover 0..65535']))
+
+reg(Spec('C15', ['c15:C15'],
+         quick=[('HDR', 2500), ('ADV', 2500)],
+         thorough=[('HDR', 60000), ('ADV', 60000), ('CORRUPT', 10000)],
+         overrides={'HDR': {'config_matrix': 0.8, 'sloppy_sender': 0.6, 'misuse': 0.25}, 'ADV': {'config_matrix': 0.5}},
+         rule=R_RUN + 'non-trivial = a header block violating at least one section 8.1.2 rule was delivered to an endpoint in a position where the stream state permits a block' + R_DISTINCT))
+
+reg(Spec('C16', ['c16:C16'],
+         quick=[('HDR', 2500), ('DUPLEX', 1500), ('ADV', 1500)],
+         thorough=[('HDR', 60000), ('DUPLEX', 40000), ('ADV', 40000)],
+         overrides={'*': {'cl': 0.5, 'cl_lie': 0.3, 'matrix_outbound': False, 'small_backlog': False}},
+         rule=R_RUN + 'non-trivial = a message with END_STREAM on HEADERS or on trailers was delivered (placements other than the last DATA)' + R_DISTINCT))
